@@ -267,7 +267,11 @@ class StateWorld(Run):
             spec["G"] = rm.pstr(rm.rand_hermitian(rng, m))
             # clifford_rotation_gate condenses to the support: keep full support here
             # by construction when 'condense' is set
-            spec["ctor"] = rng.choice(["set_generator", "rotation_gate"])
+            spec["ctor"] = rng.choice(["set_generator", "rotation_gate", "rotation_gate_q"])
+            if spec["ctor"] == "rotation_gate_q":
+                # clifford_rotation_gate(generator on m letters, qubits=ascending array): the gate
+                # lives on the qubits where the generator is non-trivial
+                pass
             if spec["ctor"] == "rotation_gate":
                 # generator given on the whole register; the gate lives on its support
                 full = rm.rand_hermitian(rng, n)
@@ -298,7 +302,14 @@ class StateWorld(Run):
             raise Skip()
         if kind == "gen":
             G = rm.pparse(spec["G"])
-            if spec.get("ctor") == "rotation_gate":
+            if spec.get("ctor") == "rotation_gate_q":
+                if len(G[0]) != len(q) or self.S.name != "numpy":
+                    raise Skip()
+                gate = pc.clifford_rotation_gate(self.S.mk_pauli(G), np.array(q))
+                q2 = [int(x) for x in gate.qubits]
+                loc = (tuple(G[0][q.index(x)] for x in q2), G[1])
+                q = q2
+            elif spec.get("ctor") == "rotation_gate":
                 if len(G[0]) != self.n:
                     raise Skip()
                 gate = pc.clifford_rotation_gate(self.S.mk_pauli(G))
@@ -1324,6 +1335,7 @@ class StateWorld(Run):
             rec = arg
         seams.prepare_call(op)
         raised = None
+        rec_before = (list(circ.measure_result), float(circ.log2prob))
         try:
             if arg is None:
                 circ.backward(st)
@@ -1343,6 +1355,8 @@ class StateWorld(Run):
             self._resync(name, "cbwd")
             return ["raised" if raised else "ok", self._digest(name)]
         # --- C14 oracle: adjoint of the recorded trajectory
+        if (list(circ.measure_result), float(circ.log2prob)) != rec_before:
+            raise Violation("c14.backward_modified_record", {"kind": kind, "raised": raised is not None})
         if nm == 0:
             if raised is not None:
                 raise Violation("c14.exception", {"exc": repr(raised), "op": "unitary backward"})
